@@ -45,14 +45,15 @@ type Violation struct {
 }
 
 type H struct {
-	Tier   string
-	Seed   uint64
-	Replay string
-	R      *RNG
-	dir    string
-	cases  *bufio.Writer
-	cf     *os.File
-	viol   *os.File
+	Tier    string
+	Seed    uint64
+	Replay  string
+	R       *RNG
+	dir     string
+	perWhat map[string]int
+	cases   *bufio.Writer
+	cf      *os.File
+	viol    *os.File
 
 	evaluations int
 	nontrivial  map[string]struct{}
@@ -117,14 +118,19 @@ func (h *H) NonTrivial(key string) {
 	}
 	h.nontrivial[key] = struct{}{}
 }
-func (h *H) Dist(k string)        { h.dist[k]++ }
+func (h *H) Dist(k string)         { h.dist[k]++ }
 func (h *H) DistN(k string, n int) { h.dist[k] += n }
-func (h *H) Note(s string)        { h.notes = append(h.notes, s) }
+func (h *H) Note(s string)         { h.notes = append(h.notes, s) }
 
 // Violation: a direct predicate of the property failed on the implementation.
 func (h *H) Violation(prop, what, cas, detail string) {
 	h.violations++
-	if h.violations > 200 {
+	// at most 25 records per kind of violation (a frequent known finding must not crowd out another property's violation)
+	if h.perWhat == nil {
+		h.perWhat = map[string]int{}
+	}
+	h.perWhat[prop+"|"+what]++
+	if h.perWhat[prop+"|"+what] > 25 {
 		return
 	}
 	if len(cas) > 4000 {
